@@ -1,5 +1,6 @@
 #!/bin/bash
 # usage: tools_seed_eval.sh <PID> <seed dir name e.g. c19>   (expects /tmp/seed_<x> worktree and /tmp/seed_<x>_out/)
+# DEMO_FEATURES="--features verif-hooks" for demos that need the hooks
 # 1. confirms the seeded change: lib tests pass, demo fails with it and passes without it (in the scratch worktree)
 # 2. applies the patch to /repo, runs ./check PID (quick), reverts; prints the verdict
 PID=$1; X=$2; WT=/tmp/seed_$X; OUT=/tmp/seed_${X}_out
@@ -7,9 +8,9 @@ export CARGO_TARGET_DIR=$WT/target CARGO_NET_OFFLINE=true
 cd $WT || exit 2
 [ -f tests/seeded_demo.rs ] || { mkdir -p tests; cp $OUT/seeded_demo.rs tests/ 2>/dev/null; }
 echo "== lib tests with change:"; cargo test --offline --lib 2>&1 | grep "^test result" | head -1
-echo "== demo with change (expect FAIL):"; cargo test --offline --test seeded_demo 2>&1 | grep -E "^test result|panicked|error(\[|:)" | head -3
+echo "== demo with change (expect FAIL):"; cargo test --offline $DEMO_FEATURES --test seeded_demo 2>&1 | grep -E "^test result|panicked|error(\[|:)" | head -3
 git apply -R $OUT/patch.diff || { echo "cannot revert patch"; exit 2; }
-echo "== demo without change (expect ok):"; cargo test --offline --test seeded_demo 2>&1 | grep -E "^test result|error(\[|:)" | head -2
+echo "== demo without change (expect ok):"; cargo test --offline $DEMO_FEATURES --test seeded_demo 2>&1 | grep -E "^test result|error(\[|:)" | head -2
 git apply $OUT/patch.diff
 cd /verif
 git -C /repo apply $OUT/patch.diff || { echo "patch does not apply to /repo"; exit 2; }
